@@ -36,6 +36,9 @@ fn profile() -> Profile {
         max_clusters: 24,
         cb_weights: [25, 20, 15, 20, 15, 5],
         max_cluster_bits: 18,
+        // the probes include writes of the whole device: keep it small enough that the host file
+        // stays inside the initial refcount table (growth is C12's subject and a known finding there)
+        wide_l1_pct: 0,
         ..Profile::default()
     }
 }
